@@ -12,9 +12,13 @@ Calls(sig) == UNION {UNION {{[pos |-> p, named |-> [q \in 1..Len(idx) |-> <<idx[
                             : idx \in {SetToSeq(S) : S \in SUBSET ((Len(p) + 1)..Len(sig))}}
                      : p \in UNION {[1..k -> V] : k \in 0..Len(sig)}}
 Forms == {"await", "start", "paren", "when", "group"}
+(* the order in which the arguments are WRITTEN in the parenthesis-free syntax: positional ones first ("pf"), the named
+   ones first ("nf"), or the named ones after the first positional one ("mid"); the binding does not depend on it *)
+Ords(c, f) == IF Len(c.pos) = 0 \/ Len(c.named) = 0 \/ f = "paren" THEN {"pf"}
+              ELSE IF Len(c.pos) >= 2 THEN {"pf", "nf", "mid"} ELSE {"pf", "nf"}
 Data == IF Mode = "judge" THEN JsonDeserialize(IOEnv.TRACE_FILE) ELSE <<>>
-VARIABLES sig, call, form, k
-vars == <<sig, call, form, k>>
+VARIABLES sig, call, form, ord, k
+vars == <<sig, call, form, ord, k>>
 Code(t) == CASE t = "i1" -> 1 [] t = "ss" -> 2 [] t = "bT" -> 3 [] t = "i0" -> 10 [] t = "se" -> 11 [] t = "bF" -> 12 [] t = "n" -> 4 [] t = "l12" -> 5 [] t = "da1" -> 6
              [] t = "-" -> 7 [] t = "i7" -> 8 [] t = "sd" -> 9
 RECURSIVE HS(_, _)
@@ -22,11 +26,11 @@ HS(s, i) == IF i = 0 THEN 0 ELSE (HS(s, i - 1) * 31 + Code(s[i])) % 9973
 H(s, c) == (HS(s, Len(s)) * 7 + HS(c.pos, Len(c.pos)) * 13 + Len(c.named) * 101
             + HS([q \in 1..Len(c.named) |-> c.named[q][2]], Len(c.named)) * 17) % Parts
 Init == \/ /\ Mode = "emit" /\ k = 0
-           /\ sig \in Sigs /\ call \in Calls(sig) /\ form \in Forms
-           /\ H(sig, call) = Part
-        \/ /\ Mode = "judge" /\ k \in 1..Len(Data) /\ sig = <<>> /\ call = <<>> /\ form = ""
+           /\ sig \in Sigs /\ call \in Calls(sig) /\ H(sig, call) = Part
+           /\ form \in Forms /\ ord \in Ords(call, form)
+        \/ /\ Mode = "judge" /\ k \in 1..Len(Data) /\ sig = <<>> /\ call = <<>> /\ form = "" /\ ord = ""
 Spec == Init /\ [][UNCHANGED vars]_vars
-Emit == Mode = "emit" => PrintT(ToJson([sig |-> sig, call |-> call, form |-> form, bind |-> Bind(sig, call)]))
+Emit == Mode = "emit" => PrintT(ToJson([sig |-> sig, call |-> call, form |-> form, ord |-> ord, bind |-> Bind(sig, call)]))
 (* recorded: c.echo = what the callee saw for its parameters (value tokens), c.ret = value assigned
    in the caller (token) for `$x = await`, c.caller_ok / c.sibling_ok = locals untouched *)
 Verdict == Mode = "judge" =>
